@@ -43,6 +43,8 @@ theorem scriptOK_t1 : ScriptOK "QF_LIA" t1 = true := by
   simp only [ScriptOK, decls_t1, fv_t1, ty_t1, hp]
   decide +kernel
 
-theorem avOrdered_t1 : avOrdered t1 = true := by simp [avOrdered, t1, Term.sym, Term.int]
+theorem avGuard_t1 : avGuard t1 = true := by simp [avGuard, t1, Term.sym, Term.int]
+
+theorem noQuant_t1 : noQuant t1 = true := by simp [noQuant, t1, Term.sym, Term.int, Op.isQuantifier]
 
 end PySMT.C07
